@@ -3,6 +3,7 @@ package vg
 import (
 	"go/token"
 	"go/types"
+	"strings"
 
 	"golang.org/x/tools/go/ssa"
 )
@@ -348,6 +349,95 @@ func runC06(c *Ctx) {
 		if seenNF < 2 || seenOK < 1 {
 			c.Bad("C06.3", FuncName(resolve), "returns", resolve.Pos(), "method resolution lacks the expected not-found / success returns: shape changed")
 		}
+	}
+
+	// ---------------------------------------------------------------- C06.5 / C06.6
+	c.Rule("C06.5", "template literals are canonicalised with the library's own escaper, whose escape set is 'everything but unreserved'", 2)
+	parseLit := p.MustFunc("(*pathParser).parseLiteral")
+	pathEsc := p.MustFunc("pathEscape")
+	okCanon, nRet := true, 0
+	ForEachInstr(parseLit, func(in ssa.Instruction) {
+		ret, ok := in.(*ssa.Return)
+		if !ok || len(ret.Results) != 2 || !IsNilConst(ret.Results[1]) {
+			return
+		}
+		nRet++
+		good := false
+		for _, l := range Origins(ret.Results[0]) {
+			if l.Kind == "call" {
+				for _, cal := range p.CalleesAt(l.Call) {
+					if cal == pathEsc {
+						for _, la := range Origins(l.Call.Common().Args[0]) {
+							if la.Kind == "call" && isDecoderCall(la.Call) {
+								good = true
+							}
+						}
+					}
+				}
+			}
+		}
+		if !good {
+			okCanon = false
+		}
+	})
+	c.Check(okCanon && nRet > 0, "C06.5", FuncName(parseLit), "literal-canonicalised", parseLit.Pos(),
+		"a template literal is stored as pathEscape(pathUnescape(literal)): the same alphabet the raw request segments are compared in",
+		"template literals are no longer canonicalised with the library's own escaper: trie keys and still-encoded request segments disagree for reserved characters (%3A, %40, ...) and such routes never match")
+	if pse := p.Func("pathShouldEscape"); pse != nil {
+		var bad []string
+		okFold := true
+		for b := int64(0); b < 256 && okFold; b++ {
+			res, err := p.Fold(pse, fInt64(b, types.Typ[types.Uint8]), fInt64(0, types.Typ[types.Int]))
+			if err != nil || len(res) != 1 || res[0].k != fBool {
+				okFold = false
+				c.Unknown("C06.5", FuncName(pse), "fold", pse.Pos(), "escape predicate could not be folded")
+				break
+			}
+			ch := byte(b)
+			unres := ch >= 'a' && ch <= 'z' || ch >= 'A' && ch <= 'Z' || ch >= '0' && ch <= '9' || ch == '-' || ch == '.' || ch == '_' || ch == '~'
+			if res[0].b == unres {
+				bad = append(bad, string(rune(ch)))
+			}
+		}
+		if okFold {
+			c.Check(len(bad) == 0, "C06.5", FuncName(pse), "escape-set-unreserved-complement", pse.Pos(),
+				"folded over all 256 bytes: exactly the RFC 3986 unreserved characters stay unescaped", "path escape set is not the complement of the unreserved characters (differs for: "+joinStr(bad)+")")
+		}
+	} else {
+		fatalf("anchor=pathShouldEscape not found")
+	}
+	c.Rule("C06.6", "the verb is split off the last path element only", 1)
+	nColon := 0
+	for _, call := range Calls(match) {
+		if !IsCallTo(call, "strings.IndexRune", "strings.IndexByte", "strings.Index", "strings.LastIndex", "strings.LastIndexByte", "strings.Cut", "strings.Split", "strings.SplitN", "strings.Contains") {
+			continue
+		}
+		sep := call.Common().Args[1]
+		isColon := false
+		if s2, ok := ConstString(sep); ok && s2 == ":" {
+			isColon = true
+		}
+		if k, ok := ConstInt(sep); ok && k == ':' {
+			isColon = true
+		}
+		if !isColon {
+			continue
+		}
+		nColon++
+		elem := false
+		for _, l := range Origins(call.Common().Args[0]) {
+			if l.Kind == "load" && strings.HasSuffix(l.Path, "[]") {
+				elem = true
+			} else {
+				elem = false
+				break
+			}
+		}
+		c.Check(elem, "C06.6", FuncName(match), "verb-from-last-element", call.Pos(),
+			"the ':' separating the verb is searched in an element of the already split path", "the ':' is searched in the whole path: a colon inside an inner segment truncates the path and variables can no longer capture it")
+	}
+	if nColon == 0 {
+		c.Bad("C06.6", FuncName(match), "verb-from-last-element", match.Pos(), "no search for the verb separator found: shape changed")
 	}
 
 	// ---------------------------------------------------------------- C06.4
